@@ -5,7 +5,7 @@ META = dict(_M)
 META["assumptions"] = _M["assumptions"] + ["eigvalsh/eigh return the spectrum (assumed library contract): verdicts are relative to it"]
 CLASSES = ["contracts.C01_state:StateTraceOne"] + ["contracts.C01_all:" + c for c in (
     "MutilHermitian", "MutilPsd", "StatePsd", "StatePhysical", "StateConstructor", "OriginZero",
-    "PovmIdentitySum", "PovmPsd", "GateTp", "GateCp", "MProcessSumTp", "MProcessCp", "TypePhysical", "TypeConstructor", "EffectiveLindbladianVerdicts")]
+    "PovmIdentitySum", "PovmPsd", "GateTp", "GateCp", "MProcessSumTp", "MProcessCp", "TypePhysical", "TypeConstructor")] + ["contracts.C01_el:EffectiveLindbladianVerdicts"]
 
 
 def jobs(tier, seed):
